@@ -221,6 +221,28 @@ class Fn:
         self.spec_inserts += 1
         return self
 
+    def pin_call_args(self, prefix, pins):
+        """spec-only: the n-th statement `PREFIX(ARG);` becomes `{ let e_ = ARG; proof { assert(SPEC_n(e_)); } PREFIX(e_); }`.
+        Occurrences are taken in textual order, no text of ARG is matched; surplus occurrences stay unpinned."""
+        ms = _find_all(prefix, self.body)
+        n = min(len(ms), len(pins))
+        for k in reversed(range(n)):
+            i = ms[k].end() - 1
+            assert self.body[i] == '(', 'prefix must end with ('
+            j = match_brace(self.body, i)
+            arg = self.body[i + 1:j].strip().rstrip(',')
+            e = j + 1
+            while self.body[e] in ' \n\t':
+                e += 1
+            if self.body[e] != ';':
+                raise ExtractError(f"lost anchor in {self.qual}: `{prefix}` occurrence {k} is not a statement")
+            label, spec = pins[k]
+            new = f"{{ let e_ = {arg}; proof {{ assert({spec}); // @@A:{label}\n }} {prefix}e_); }}"
+            self.body = self.body[:ms[k].start()] + new + self.body[e + 1:]
+            self.spec_inserts += 1
+        self.rewrites.append(('SPEC-bind-arg', f'{n} of {len(ms)} `{prefix}..)` statements: argument bound to a local and pinned by an assert', ''))
+        return self
+
     def at_loop_end(self, loop_anchor, text, nth=0):
         """spec-only: insert text at the end of the body of the loop whose header contains `loop_anchor`"""
         i = self._loop_open(loop_anchor, nth)
